@@ -200,6 +200,57 @@ theorem record_perm (ext : Ext) (sfs : Fields) (n : Bool) (md : Metadata) (nm nm
     rw [pickOne_perm hperm hw]
     exact hf
 
+/-! ### `Item` / `Items` (serde_arrow/src/internal/utils/mod.rs:17-153)
+
+The two wrappers have hand-written `Serialize` impls; they are modelled here call by call.  Everything the builder (and
+the specification) sees of them is the value below, so "behave exactly like a one-field record named `item`" is the
+definitional unfolding `item_is_record` / `items_is_seq_of_records`, and the consequences are the presentation theorems
+applied to it.  (Array-level corollaries: Props/C11Arrays.lean.) -/
+
+/-- `impl<T: Serialize> Serialize for Item<T>` (utils/mod.rs:67-78): builds the local
+`#[derive(Serialize)] struct Item<'a, T> { item: &'a T }` and serializes it — `serialize_struct("Item", 1)`, one
+`serialize_field("item", &self.0)`, `end`.  `al`: the address identity of the static name `"item"`; `v`: the calls
+`T::serialize` issues. -/
+def serItem (al : Nat) (v : SVal) : SVal := .record "Item" (.cons "item" al v .nil)
+
+/-- `impl<T: Serialize> Serialize for Items<&[T]>` (utils/mod.rs:140-151; the impls for `Vec<T>`, `&Vec<T>`, `[T; N]`,
+`&[T; N]` delegate to it through `as_slice`, :104-138): `serialize_seq(Some(len))`, one `serialize_element(&Item(item))`
+per item, `end`.  All elements go through the same `Item<&T>` impl, hence the same static `"item"` (`al`). -/
+def serItems (al : Nat) (vs : List SVal) : SVal := .seq (SVals.ofList (vs.map (serItem al)))
+
+/-- **`Item(v)` IS the one-field record named `item`** (what `#[derive(Serialize)] struct Item { item: T }` issues) -/
+theorem item_is_record (al : Nat) (v : SVal) : serItem al v = .record "Item" (.cons "item" al v .nil) := rfl
+
+/-- **`Items(vs)` IS the sequence of those records**, in order -/
+theorem items_is_seq_of_records (al : Nat) (vs : List SVal) :
+    serItems al vs = .seq (SVals.ofList (vs.map fun v => .record "Item" (.cons "item" al v .nil))) := rfl
+
+/-- neither the struct's type name nor the address of the static `"item"` matter: `Item(v)` means what ANY one-field
+record `R { item: v }` means … -/
+theorem item_interp_record (ext : Ext) (sfs : Fields) (n : Bool) (md : Metadata) (al al' : Nat) (nm : String) (v : SVal) :
+    interpDT ext (.struct sfs) n md (serItem al v) = interpDT ext (.struct sfs) n md (.record nm (.cons "item" al' v .nil)) := by
+  simp only [serItem, interpDT, interpByName]
+
+/-- … and what the map `{"item": v}` means -/
+theorem item_interp_map (ext : Ext) (sfs : Fields) (n : Bool) (md : Metadata) (al : Nat) (v : SVal) :
+    interpDT ext (.struct sfs) n md (serItem al v) = interpDT ext (.struct sfs) n md (.map (.cons (.str "item") v .nil)) :=
+  (record_as_map ext sfs n md "Item" (.cons "item" al v .nil)).symm
+
+/-- against the schema `[item: dt]` (what `SchemaLike::from_type::<Item<T>>` traces), `Item(v)` is the row whose single
+column `item` holds the documented value of `v` -/
+theorem item_row (ext : Ext) (dt : DataType) (n : Bool) (md : Metadata) (al : Nat) (v : SVal) :
+    interpRow ext [.mk "item" dt n md] (serItem al v) =
+      (do let lv ← interpDT ext dt n md v; pure (.struct (.cons "item" lv .nil))) := by
+  simp only [interpRow, serItem, interpDT, isUnknownVariant, Bool.false_eq_true, if_false, structOf, Fields.toList_ofList,
+    List.mapM_cons, List.mapM_nil, interpByName, Field.name, Field.dataType, Field.nullable, Field.metadata,
+    beq_self_eq_true, if_true, bind, Except.bind, pure, Except.pure]
+  cases interpDT ext dt n md v with
+  | error e => rfl
+  | ok lv => simp [pickOne, LFields.ofList]
+
+theorem noRaw_serItem (al : Nat) (v : SVal) : noRaw (serItem al v) = noRaw v := by
+  simp [serItem, noRaw, noRawf]
+
 /-! ### non-vacuity -/
 
 example : interpDT {} (.struct (.cons (.mk "a" .int32 false []) (.cons (.mk "b" .utf8 true []) .nil))) false []
@@ -207,5 +258,12 @@ example : interpDT {} (.struct (.cons (.mk "a" .int32 false []) (.cons (.mk "b" 
     .ok (.struct (.cons "a" (.int 2) (.cons "b" (.str [120]) .nil))) := by decide +kernel
 
 example : asEntries (.cons "a" 0 (.int .i8 2) .nil) = .cons (.str "a") (.int .i8 2) .nil := rfl
+
+/-- `Items(&[7u8, 9u8])` as the builder sees it, and what its second element means against `[item: Int32]` -/
+example : serItems 0 [.int .u8 7, .int .u8 9] =
+    .seq (.cons (.record "Item" (.cons "item" 0 (.int .u8 7) .nil)) (.cons (.record "Item" (.cons "item" 0 (.int .u8 9) .nil)) .nil)) := rfl
+
+example : interpRow {} [.mk "item" .int32 false []] (serItem 0 (.int .u8 9)) = .ok (.struct (.cons "item" (.int 9) .nil)) := by
+  decide +kernel
 
 end SaModel.Props.C11
